@@ -79,3 +79,11 @@ func init() {
 		mutant{Name: "callee-results-alias-the-destination", Prop: "C04", File: "interp/run.go", Old: "\t\tfor i := range rvalues {\n\t\t\tnf.data[i] = reflect.New(def.types[i]).Elem()\n\t\t}\n", New: "\t\tfor i, v := range rvalues {\n\t\t\tif v != nil {\n\t\t\t\tnf.data[i] = v(f)\n\t\t\t} else {\n\t\t\t\tnf.data[i] = reflect.New(def.types[i]).Elem()\n\t\t\t}\n\t\t}\n", Rule: "R04.3", Key: "call"},
 	)
 }
+
+func init() {
+	addMutants(
+		// D75 reverted
+		mutant{Name: "compile-time-panic-escapes-eval", Prop: "C06", File: "interp/program.go", Old: "\tdefer func() {\n\t\tif r := recover(); r != nil {\n\t\t\tvar pc [64]uintptr // 64 frames should be enough.\n\t\t\tn := runtime.Callers(1, pc[:])\n\t\t\tprog, err = nil, Panic{Value: r, Callers: pc[:n], Stack: debug.Stack()}\n\t\t}\n\t}()\n\n\t// Convert AST.\n", New: "\t// Convert AST.\n", Rule: "R06.15", Key: "entry/Eval->cfg"},
+		mutant{Name: "compile-time-panic-rethrown", Prop: "C12", File: "interp/program.go", Old: "\t\t\tprog, err = nil, Panic{Value: r, Callers: pc[:n], Stack: debug.Stack()}\n\t\t}\n\t}()\n\n\t// Convert AST.\n", New: "\t\t\tprog, err = nil, Panic{Value: r, Callers: pc[:n], Stack: debug.Stack()}\n\t\t\tpanic(r)\n\t\t}\n\t}()\n\n\t// Convert AST.\n", Rule: "R12.14", Key: "entry/Eval->cfg"},
+	)
+}
